@@ -108,7 +108,9 @@ class PostgresImpl(SqlImpl):
             return sqa.cast(val, sqa.BigInteger)
         elif fn.op in (ops.sum, ops.cum_sum):
             # postgres sometimes switches types for `sum`
-            return sqa.cast(val, args[0].type)
+            # (an argument that is e.g. a function call does not carry a SQL type)
+            if not isinstance(args[0].type, sqa.types.NullType):
+                return sqa.cast(val, args[0].type)
         return val
 
     @classmethod
